@@ -66,8 +66,73 @@ def _pair(c):
     return ev
 
 
+RSRC = {"32633": ((400000.0, 5500000.0, 1000000.0, 6100000.0), 60), "4326": ((5.0, 40.0, 25.0, 60.0), 60), "3035": ((3000000.0, 2000000.0, 5000000.0, 4000000.0), 60),
+        "3577": ((-1500000.0, -4000000.0, 1000000.0, -1500000.0), 60), "3575": ((-3000000.0, -4000000.0, 1000000.0, -500000.0), 60)}
+
+
+def _rpair(c):
+    """tiled pair in really different CRSs; environment table (fresh pyproj): which (dst tile, src tile) pairs overlap beyond doubt"""
+    import numpy as np
+    import pyproj
+
+    from odc.geo.geobox import GeoBox, GeoboxTiles
+    from odc.geo.geom import BoundingBox
+
+    sy, sx = c["st"]
+    dy, dx = c["dt"]
+    ev = {"op": "rpair", "c": c, "sy": sy, "sx": sx, "dy": dy, "dx": dx, "outcome": "ok", "deps": [], "need": [], "apart": False}
+    try:
+        s, d = c["pair"].split(">")
+        box, n = RSRC[s]
+        src = GeoBox.from_bbox(box, f"epsg:{s}", shape=(sum(sy), sum(sx)), tight=True)
+        # footprint of the source in the destination CRS from fresh pyproj (dense boundary)
+        tr = pyproj.Transformer.from_crs(int(s), int(d), always_xy=True)
+        t = np.linspace(0, 1, 201)
+        bx = np.concatenate([box[0] + (box[2] - box[0]) * t, np.full(201, box[2]), box[2] - (box[2] - box[0]) * t, np.full(201, box[0])])
+        by = np.concatenate([np.full(201, box[1]), box[1] + (box[3] - box[1]) * t, np.full(201, box[3]), box[3] - (box[3] - box[1]) * t])
+        fx, fy = tr.transform(bx, by)
+        l, r, b, tp = float(np.min(fx)), float(np.max(fx)), float(np.min(fy)), float(np.max(fy))
+        w, h = r - l, tp - b
+        k = 1.0 if c["zoom"] == "same" else 1.6
+        x0, y0 = l + c["dx"] / 10 * w, b + c["dy"] / 10 * h
+        if d == "4326" and not (-180 <= x0 and x0 + 0.8 * w * k <= 180 and -89 <= y0 and y0 + 0.8 * h * k <= 89):
+            ev["outcome"] = "skip_destination_outside_the_valid_area_of_its_crs"
+            return ev
+        dst = GeoBox.from_bbox(BoundingBox(x0, y0, x0 + 0.8 * w * k, y0 + 0.8 * h * k, f"epsg:{d}"), shape=(sum(dy), sum(dx)), tight=True)
+        gs, gd = GeoboxTiles(src, (tuple(sy), tuple(sx))), GeoboxTiles(dst, (tuple(dy), tuple(dx)))
+        deps = gd.grid_intersect(gs)
+        ev["deps"] = [{"d": [int(kk[0]), int(kk[1])], "s": [[int(a), int(bb)] for a, bb in v]} for kk, v in sorted(deps.items())]
+        # environment table: destination pixel centres -> source pixel coordinates
+        back = pyproj.Transformer.from_crs(int(d), int(s), always_xy=True)
+        hd, wd = dst.shape
+        qq, rr = np.meshgrid(np.arange(wd) + 0.5, np.arange(hd) + 0.5)
+        A = dst.affine
+        wx, wy = back.transform(A.a * qq + A.b * rr + A.c, A.d * qq + A.e * rr + A.f)
+        B = ~src.affine
+        px, py = B.a * wx + B.b * wy + B.c, B.d * wx + B.e * wy + B.f
+        ey, ex = np.cumsum([0] + list(sy)), np.cumsum([0] + list(sx))
+        dey, dex = np.cumsum([0] + list(dy)), np.cumsum([0] + list(dx))
+        need = []
+        for i in range(len(dy)):
+            for j in range(len(dx)):
+                tx, ty = px[dey[i]:dey[i + 1], dex[j]:dex[j + 1]], py[dey[i]:dey[i + 1], dex[j]:dex[j + 1]]
+                for a in range(len(sy)):
+                    for bb in range(len(sx)):
+                        m = 1.0 if (sy[a] > 2 and sx[bb] > 2) else 0.25
+                        inside = np.isfinite(tx) & (tx > ex[bb] + m) & (tx < ex[bb + 1] - m) & (ty > ey[a] + m) & (ty < ey[a + 1] - m)
+                        if int(inside.sum()) >= 3:
+                            need.append([i, j, a, bb])
+        ev["need"] = need
+        fin = np.isfinite(px) & np.isfinite(py)
+        ev["apart"] = bool(not (fin & (px > -3) & (px < src.shape[1] + 3) & (py > -3) & (py < src.shape[0] + 3)).any()
+                           and (c["dx"] >= 20 or c["dx"] <= -20))
+    except Exception as ex:  # noqa: BLE001
+        ev["outcome"] = type(ex).__name__
+    return ev
+
+
 def execute(c):
-    return _query(c) if c["op"] == "query" else _pair(c)
+    return _query(c) if c["op"] == "query" else (_rpair(c) if c["op"] == "rpair" else _pair(c))
 
 
 def _validate(ctx, events):
@@ -81,13 +146,16 @@ def run(ctx):
     total = len(cases)
     qs = [c for c in cases if c["op"] == "query"]
     ps = [c for c in cases if c["op"] == "pair"]
-    cases = ctx.subsample(qs, 6000 if q else 10 ** 6) + ctx.subsample(ps, 2500 if q else 10 ** 6)
+    rs = [c for c in cases if c["op"] == "rpair"]
+    cases = ctx.subsample(qs, 6000 if q else 10 ** 6) + ctx.subsample(ps, 2500 if q else 10 ** 6) + ctx.subsample(rs, 400 if q else 10 ** 6)
     events = ctx.pmap(execute, cases)
     verdicts = _validate(ctx, events)
     for ev, v in zip(events, verdicts):
         c = ev["c"]
         if c["op"] == "query":
             ctx.record(c, v, op="query:" + c["how"], nontrivial=len(ev["out"]) > 0, sample={"case": c, "query": ev["q"], "tiles": ev["out"]})
+        elif c["op"] == "rpair":
+            ctx.record(c, v, op="graph:real-crs:" + c["pair"], nontrivial=len(ev["need"]) > 0, sample={"case": c, "deps": ev["deps"][:4], "needed_pairs": len(ev["need"]), "apart": ev["apart"]})
         else:
             ctx.record(c, v, op="graph:" + ("general" if (c["crs"] == "other" or c["A"][1] != 0) else "linear"),
                        nontrivial=any(d["s"] for d in ev["deps"]), sample={"case": c, "deps": ev["deps"][:4]})
@@ -97,7 +165,8 @@ def run(ctx):
     ctx.rule = ("query cases = 5 base grids (north-up, mirrored, flipped, 90deg, Pythagorean) x 4 tilings (regular, variable, single tile) x boxes / triangles / diamonds inside, straddling, "
                 "outside and larger than the raster x {geometry, geometry in the exact-translation CRS, bounding box, range_from_bbox}; graph cases = tiled pairs related by scales "
                 "{1,-1,2,1/2,3/2}, shifts with residues {0,+-1/16,1/2}, 90deg and 3-4-5 rotations, from overlapping to disjoint, in the same CRS (linear / general path) and in the "
-                "exact-translation CRS (general path); non-trivial = something returned; distinct by input")
+                "exact-translation CRS (general path); plus tiled pairs in 6 really different CRS pairs (curved footprints, placements from inside to far apart, regular / variable / 1-pixel tiles) against a "
+                "fresh-pyproj table of the tile pairs that overlap beyond doubt; non-trivial = something returned; distinct by input")
     ctx.assumptions = ["zero-area contacts between a query and a tile are neither required nor forbidden", "shapely predicates are not used as an oracle (exact integer separating-axis test in TLA+)",
                        "exact tmerc CRS family for cross-CRS cases"]
 
